@@ -122,6 +122,11 @@ add("C37", "dverif", "exploration",
     "Single node with File storage; TTL > 10 years clamped before the inner state machine.",
     PBT + "round-trip: submitted command vs command observed at apply, over both client paths")
 
+add("C36", "dverif", "exploration",
+    "Differential on a real follower (Raft<SimT> loop, real log, replication/commit handlers, state-machine worker): a generated queue of AppendEntries built from real leader logs (consecutive, heartbeats, overlapping re-sends, non-contiguous, leader changes, merge limit 1..12|100) is run with all requests queued before the loop runs (merge path) and one at a time (no merge) on two fresh nodes; oracle: identical final log, commit index and applied sequence, every sender answered, same kind of acknowledgement, match index within [own one-at-a-time value, last one-at-a-time value of that term].",
+    "Requests are ones a leader can send (true prev term, FIFO commit order). The term field of success/conflict answers and conflict hints are not compared (a merged group shares one answer).",
+    PBT + "metamorphic/differential: merged vs one-at-a-time delivery of generated request queues")
+
 NOT_YET = "check not built yet; to be decided by property-based testing per DESIGN.md §5 (no other technique substituted)"
 
 def hooks_commits():
